@@ -189,8 +189,8 @@ for _lo, _hi in ((0, 20), (20, 40), (40, 60), (60, 80), (80, 100), (100, 120), (
               'ending after every byte offset: replies == complete frames, the request processor is never invoked on a partial frame, tag changed '
               'iff the write frame is complete, handler raises iff a frame is partial, socket closed, stats entry removed',
        outside='other sessions/listener thread (C09 territory); UDP')
-for _lo in range(0, 161, 10):
-  _hi = min(_lo + 10, 161)
+for _lo in list(range(0, 80, 10)) + list(range(80, 161, 5)):            # the cost of a shard grows with offset x split positions: narrower shards further in
+  _hi = min(_lo + (10 if _lo < 80 else 5), 161)
   define(globals(), 'C02', 'truncation_two_chunks_%03d_%03d' % (_lo, _hi), ['v', 't', 'cut'], "return do_truncate(v, 7, %d + t, cut)" % _lo,
        ['-32768 <= v <= 32767 and 0 <= t < %d and 0 <= cut' % (_hi - _lo)], tier='thorough', timeout=6000, path_timeout=300, drives=SRV_DRIVES,
        stubs=['network.recv -> scripted chunks then EOF', 'conn -> recorder', 'misc.timer -> counter', 'random -> counter', 'main.apidict (per-connection stats) -> dotdict'],
